@@ -22,6 +22,9 @@ type Case struct {
 	Ids   []string       `json:"ids"`
 	Count int            `json:"count"`
 	Syms  []any          `json:"syms"`
+	// the answer the plain child store has to give: the same query over the rows that have child data
+	KidIds   []string `json:"kidIds"`
+	KidCount int      `json:"kidCount"`
 }
 
 type Mismatch struct {
@@ -232,22 +235,16 @@ func (e *Env) Run(idx int, c *Case) []Mismatch {
 			if !sameSet(got, want) {
 				o := owner
 				if paged || len(sortSpec) > 0 {
-					if owner == "C01" {
-						o = "C02"
-					}
+					o = strings.Replace(owner, "C01", "C02", 1)
 				}
 				add(path, "ids", r, want, wantN, o)
 			} else if ordered && !sameSeq(got, want) {
 				o := owner
-				if owner == "C01" {
-					o = "C02"
-				}
+				o = strings.Replace(owner, "C01", "C02", 1)
 				add(path, "order", r, want, wantN, o)
 			} else if checkCount && int(r.count) != wantN {
 				o := owner
-				if owner == "C01" {
-					o = "C02"
-				}
+				o = strings.Replace(owner, "C01", "C02", 1)
 				add(path, "count", r, want, wantN, o)
 			}
 		}
@@ -287,20 +284,11 @@ func (e *Env) Run(idx int, c *Case) []Mismatch {
 				judge("SortedScan", guard(func() ([]string, int64, error) { return st.QueryIds(tx, Filter(pred)+" sort by m, f desc") }), c.Ids, c.Count, false, true, "C01")
 			}
 		}
-		// through the extended child store: every parent row is visible
-		judge("ChildExt", guard(func() ([]string, int64, error) { return st.ChildExt.QueryIds(tx, text) }), c.Ids, c.Count, true, true, "C15")
-		if !paged {
-			// through the plain child store: the rows with child data
-			var want []string
-			for _, id := range c.Ids {
-				if e.ChildOf[id] {
-					want = append(want, id)
-				}
-			}
-			n := 0
-			_ = n
-			judge("Child", guard(func() ([]string, int64, error) { return st.Child.QueryIds(tx, text) }), want, -1, true, false, "C15")
-		}
+		// through the extended child store: every parent row is visible; through the plain child store: the rows with child data --
+		// the same order, paging and total count (the child stores are query paths like any other: C01 / C02 own them too)
+		childOwner := "C15,C01"
+		judge("ChildExt", guard(func() ([]string, int64, error) { return st.ChildExt.QueryIds(tx, text) }), c.Ids, c.Count, true, true, childOwner)
+		judge("Child", guard(func() ([]string, int64, error) { return st.Child.QueryIds(tx, text) }), c.KidIds, c.KidCount, true, true, childOwner)
 		return nil
 	})
 	// a sub-query over `kids` is a query of the plain child store: what it returns is also C15's statement
